@@ -150,6 +150,20 @@ func runC15(h *H) {
 	env := newOapiEnv()
 	n := h.budget(500, 12000)
 	outcomes := map[string]int{}
+	{
+		// KNOWN FINDING (known_findings.jsonl, C15/compute/epsilon-below-rounding-floor): a valid request with a
+		// positive alpha whose epsilon lies below the rounding floor of its own iteration — the delta stalls
+		// at 2.04e-15 and Compute iterates until the client gives up.  Kept as one fixed case so that the
+		// finding stays visible (and so that a repair is noticed).
+		r := oReq{lt: mRef{kind: "inline", size: 5, entries: []mEntry{{3, 2, 7.625}, {1, 3, 1.625}, {2, 3, 2.5}}},
+			pt:    &vRef{kind: "inline", size: 5, entries: []vEntry{{0, 1}, {2, 1}, {4, 1}}},
+			alpha: fp(0.02), eps: fp(1e-15)}
+		res := env.compute(r, 8*time.Second)
+		h.n++
+		w := (&W{}).Str(fmt.Sprintf("C15-%d:C15/compute/epsilon-below-rounding-floor", h.n)).Str("C15").Str("oapi")
+		h.emit(w.oreq(r).Bar().oresp(r.stats, res))
+		g.count("oapi:epsilon-below-rounding-floor " + res.outcome)
+	}
 	for k := 0; k < n; k++ {
 		r, kind := g.malformOReq(g.validOReq(true))
 		g.count("oapi:" + kind)
